@@ -38,3 +38,22 @@ macro_rules! with_form {
 }
 
 pub const FORM_NAMES: [&str; 4] = ["T op U", "&T op U", "T op &U", "&T op &U"];
+
+/// Like `with_int!` but binds two values to the same integer type.
+#[macro_export]
+macro_rules! with_int2 {
+    ($t:expr, $v:expr, $w:expr, $i:ident, $j:ident => $body:expr) => {
+        match $t {
+            0 => { let $i = $v as u8; let $j = $w as u8; $body }
+            1 => { let $i = $v as i8; let $j = $w as i8; $body }
+            2 => { let $i = $v as u16; let $j = $w as u16; $body }
+            3 => { let $i = $v as i16; let $j = $w as i16; $body }
+            4 => { let $i = $v as u32; let $j = $w as u32; $body }
+            5 => { let $i = $v as i32; let $j = $w as i32; $body }
+            6 => { let $i = $v as u64; let $j = $w as u64; $body }
+            7 => { let $i = $v as i64; let $j = $w as i64; $body }
+            8 => { let $i = $v as i128; let $j = $w as i128; $body }
+            _ => unreachable!(),
+        }
+    };
+}
